@@ -11,6 +11,7 @@ CONSTANTS
   MaxFaults = 2
   MaxTop = 3
   MaxSettle = 1
+  Requesters <- MCRequesters
   RouteLists <- MCRoutes
   Concurrent = FALSE
   Timeouts = FALSE
